@@ -233,3 +233,32 @@ fn token_soup_never_panics() {
     }
     println!("STATS {{\"driver\": \"token soup\", \"programs\": {n_programs}}}");
 }
+
+/// TeX.2021.442: an alphabetic constant is ` followed by a character token or by a control sequence whose name is a single
+/// character - read WITHOUT expansion, whatever that control sequence means
+#[test]
+fn alphabetic_constants() {
+    std::panic::set_hook(Box::new(|_| {}));
+    // (\\relax after the constant: the optional space after a number is looked for WITH expansion, TeX.2021.443, so a \\the
+    //  right behind it would be expanded before the assignment is done - in TeX too)
+    for (src, want) in [
+        ("\\count1=`a\\relax \\the\\count1", "97"), ("\\count1=`\\a\\relax \\the\\count1", "97"), ("\\count1=`\\% \\the\\count1", "37"), ("\\count1=`\\{\\relax \\the\\count1", "123"),
+        // the control sequence is a MACRO, a primitive, undefined: still its name's character
+        ("\\def\\a{b}\\count1=`\\a\\relax \\the\\count1", "97"), ("\\def\\a{\\count2=5 }\\count1=`\\a\\relax \\the\\count1", "97"), ("\\let\\a=\\relax \\count1=`\\a\\relax \\the\\count1", "97"),
+        ("\\def\\a{}\\count1=`\\a\\relax \\the\\count1", "97"), ("\\count1=`\\z\\relax \\the\\count1", "122"),
+        // an active character, a following digit is NOT part of the number
+        ("\\catcode`\\~=13 \\def~{x}\\count1=`~\\relax \\the\\count1", "126"), ("\\count1=`a1\\the\\count1", "197"), ("\\count1=-`a\\relax \\the\\count1", "-97"),
+    ] {
+        let s2 = src.to_string();
+        let got = std::panic::catch_unwind(move || {
+            let mut vm = vm::VM::<StdLibState>::new();
+            vm.push_source("input.tex", s2).unwrap();
+            crate::script::run_to_string(&mut vm).map_err(|e| format!("{e}"))
+        });
+        let ok = matches!(&got, Ok(Ok(out)) if out.split_whitespace().collect::<String>() == want);
+        if !ok {
+            let obs = match &got { Err(_) => "panic".to_string(), Ok(Err(_)) => "error".to_string(), Ok(Ok(o)) => o.split_whitespace().collect::<String>() };
+            println!("WITNESS {{\"fn\": \"parse_character\", \"unit_fns\": [\"parse_character\", \"parse_integer\"], \"source\": \"{}\", \"observed\": \"{}\", \"expected\": \"{want} (TeX.2021.442)\"}}", src.replace('\\', "\\\\"), obs.replace('"', "'").replace('\\', "/"));
+        }
+    }
+}
